@@ -407,7 +407,7 @@ def _flat_model(c, out):
 
 def run(ctx):
     rng = ctx.rng
-    ncases = ctx.n(24, 400)
+    ncases = ctx.n(8, 400)
     cases = [gen_case(rng, ctx.quick) for _ in range(ncases)]
     # make sure every process is present in every mode, with genuinely time-varying parameters
     cases.append(gen_case(rng, ctx.quick, proc="gm"))
